@@ -27,7 +27,8 @@
  * harness/allocfail_pipe.py with addr2line), and the allocation trace (a<serial>:<tag> / f<serial>, f0 = free of a pointer
  * never allocated inside the trace) is replaced by the verdict of the Lean-verified monitor Coap.Sessions.ledgerOk.
  *
- * ahelp ops (pdu = the current PDU, created by I): I<size> T<len> O<num>:<len> D<len> R<size> C<size> K (delete pdu)
+ * ahelp ops (pdu = the current PDU, created by I): I<size> T<len> O<num>:<len> D<len> R<size> (skipped if size < used_size)
+ *   C<size> K (delete pdu)
  *   L<num>:<len> (coap_new_optlist + coap_insert_optlist)  P (coap_add_optlist_pdu)  X (coap_delete_optlist)
  *   S<len> s<len> b<len> (coap_new_string / coap_new_str_const / coap_new_bin_const)  F (delete all strings)
  *   Vc Vn (coap_send of the current PDU as CON / NON on an established UDP client session)  W0 W1 (socket write ok / fails)
@@ -826,7 +827,7 @@ static void do_ahelp(char **w, int n) {
     case 'T': if (a <= sizeof(val)) snprintf(rcs, sizeof(rcs), "%d", coap_add_token(pdu, a, val)); break;
     case 'O': if (pdu && b <= sizeof(val)) snprintf(rcs, sizeof(rcs), "%zu", coap_add_option(pdu, (coap_option_num_t)a, b, val)); break;
     case 'D': if (pdu && a <= sizeof(val)) snprintf(rcs, sizeof(rcs), "%d", coap_add_data(pdu, a, val)); break;
-    case 'R': if (pdu) snprintf(rcs, sizeof(rcs), "%d", coap_pdu_resize(pdu, a)); break;
+    case 'R': if (pdu && a >= pdu->used_size) snprintf(rcs, sizeof(rcs), "%d", coap_pdu_resize(pdu, a)); break;  /* no caller shrinks below used_size */
     case 'C': if (pdu) snprintf(rcs, sizeof(rcs), "%d", coap_pdu_check_resize(pdu, a)); break;
     case 'K': coap_delete_pdu(pdu); pdu = NULL; strcpy(rcs, "1"); break;
     case 'L': if (b <= sizeof(val)) snprintf(rcs, sizeof(rcs), "%d", coap_insert_optlist(&ol, coap_new_optlist((uint16_t)a, b, val))); break;
